@@ -122,7 +122,8 @@ def setup_recursive_safe_function(
         :return: The generated function call expression as a string.
         :rtype: str
         """
-        cls = tp.args if is_generic else tp.origin
+        # Key for generics: `(type, value)` pairs, as `(1,) == (True,)`.
+        cls = tuple([(a.__class__, a) for a in tp.args]) if is_generic else tp.origin
         recursion_guard = extras['recursion_guard']
 
         if (_fn_name := recursion_guard.get(cls)) is None:
